@@ -95,7 +95,8 @@ contract(
     ensures=[
         "forall(0, len(result), lambda t: 0 <= result[t] and result[t] < n_edge and edge_face_connectivity[result[t], 1] == FILL)",
         "forall(0, n_edge, lambda e: implies(edge_face_connectivity[e, 1] == FILL, exists(0, len(result), lambda t: result[t] == e)))",
-        "forall(0, len(result), 0, len(result), lambda t, u: implies(t < u, result[t] < result[u]))",
+        # "exactly the edges": each once (the order is not part of the property)
+        "forall(0, len(result), 0, len(result), lambda t, u: implies(t < u, result[t] != result[u]))",
     ],
     raises=[("Exception", "False", "only_if")],
 )
